@@ -554,7 +554,7 @@ func (g *genState) next() map[string]any {
 		if r.Chance(1, 4) {
 			o["progress"] = true
 		}
-		if r.Chance(1, 14) {
+		if r.Chance(1, 14) || (o["progress"] == true && r.Chance(1, 4)) {
 			o["ppt_scheme"] = "mqtt"
 		}
 		args, kw := g.payload()
